@@ -373,11 +373,11 @@ func instantiate(ce *Eff, m map[string]*Term, callee string, ev *Event) *Eff {
 	for _, a := range ce.Args {
 		ne.Args = append(ne.Args, a.Subst(m))
 	}
-	ne.Key = ce.Key.Subst(m)
-	ne.Val = ce.Val.Subst(m)
-	ne.From = ce.From.Subst(m)
-	ne.To = ce.To.Subst(m)
-	ne.Amount = ce.Amount.Subst(m)
+	ne.Key = resolveDynTerm(ce.Key.Subst(m))
+	ne.Val = resolveDynTerm(ce.Val.Subst(m))
+	ne.From = resolveDynTerm(ce.From.Subst(m))
+	ne.To = resolveDynTerm(ce.To.Subst(m))
+	ne.Amount = resolveDynTerm(ce.Amount.Subst(m))
 	ne.Guards = FactSet{}
 	for _, g := range ce.Guards {
 		for _, ng := range g.SubstAll(m) {
@@ -400,6 +400,91 @@ func instantiate(ce *Eff, m map[string]*Term, callee string, ev *Event) *Eff {
 		}
 	}
 	return ne
+}
+
+// dynResolver is installed by the program loader: it rewrites calls through function values that have become
+// known functions after substitution.
+var dynResolver func(*Term) *Term
+
+func resolveDynTerm(t *Term) *Term {
+	if t == nil || dynResolver == nil || !t.ContainsOp("dyn") {
+		return t
+	}
+	return dynResolver(t)
+}
+
+// valueSummary: the single result term of a function whose committed paths all return the same value (over its parameters).
+func (p *Prog) valueSummary(g *Func) *Term {
+	if v, ok := p.valueMemo[g]; ok {
+		return v
+	}
+	p.valueMemo[g] = nil
+	if g == nil || g.Body == nil || !g.isHandWritten() || len(g.Res) != 1 || p.pathsBusy[g] {
+		return nil
+	}
+	var common *Term
+	for _, pa := range p.PathsOf(g) {
+		if !pa.OK() || len(pa.Ret) != 1 {
+			return nil
+		}
+		if common == nil {
+			common = pa.Ret[0]
+		} else if !common.Eq(pa.Ret[0]) {
+			return nil
+		}
+	}
+	p.valueMemo[g] = common
+	return common
+}
+
+// resolveDyn rewrites (dyn (func G [recv]) args…) to the value G returns on those arguments when G is a known
+// function with a single result value.
+func (p *Prog) resolveDynCalls(t *Term) *Term {
+	if t == nil || t.Op == "" {
+		return t
+	}
+	changed := false
+	na := make([]*Term, len(t.A))
+	for i, a := range t.A {
+		na[i] = p.resolveDynCalls(a)
+		if na[i] != a {
+			changed = true
+		}
+	}
+	nt := t
+	if changed {
+		nt = simplify(&Term{Op: t.Op, A: na, Typ: t.Typ, Obj: t.Obj, Pos: t.Pos})
+	}
+	if nt.Op == "dyn" && len(nt.A) >= 1 && nt.A[0].Is("func") && len(nt.A[0].A) >= 1 {
+		g := p.FuncNamed(nt.A[0].A[0].At)
+		if g == nil || g.Lit != nil {
+			return nt
+		}
+		if len(g.Res) == 1 && isByteSlice(g.Res[0].Type()) && g.pkgName() == "types" {
+			// a key builder held in a function value: the builder's own call (its shape is known by name)
+			direct := &Term{Op: g.Name, Typ: nt.Typ}
+			for _, a := range nt.A[1:] {
+				if a.IsAt("ctx") || a.IsAt("K") {
+					continue
+				}
+				direct.A = append(direct.A, a)
+			}
+			return direct
+		}
+		v := p.valueSummary(g)
+		if v == nil {
+			return nt
+		}
+		m := map[string]*Term{}
+		for i, a := range nt.A[1:] {
+			m[fmt.Sprintf("P%d", i)] = a
+		}
+		if len(nt.A[0].A) == 2 {
+			m["Precv"] = nt.A[0].A[1]
+		}
+		return v.Subst(m)
+	}
+	return nt
 }
 
 // isConstOnly: a comparison between two constants.
